@@ -28,9 +28,8 @@ def handle (toks : List String) : Option String :=
     match parseLists? parseInt? ins, parseList? parseNat? bs, parseLists? parseNat? rs with
     | some ins, some bs, some rs =>
       let r := Reader.new (tagInputs ins) rs
-      let (out, r') := r.session bs
-      let done := r'.rem.all List.isEmpty
-      s!"ok {if done then 1 else 0} {"|".intercalate (out.map showBatch)}"
+      let res := r.session bs
+      s!"ok {if res.2.1 then 1 else 0} {"|".intercalate (res.1.map showBatch)}"
     | _, _, _ => "bad-op"
   | ["merge.runlength", w, b, mx] => some <|
     match parseList? parseInt? w, parseInt? b, parseInt? mx with
